@@ -17,7 +17,7 @@ from numbers_parser import Document
 
 PID = "C19"
 POOL_FULL = [None, "Table 2", "table 2", "Sheet 2", "SHEET 2", "X", "", "É"]
-POOL_QUICK = [None, "Table 2", "table 2", "Sheet 2", "SHEET 2"]
+POOL_QUICK = [None, "Table 2", "table 2", "Sheet 2", "SHEET 2", ""]
 POOL_MIN = [None, "Table 2", "table 2"]
 LOOKUP_NAMES = ["Table 1", "table 1", "Table 2", "table 2", "TABLE 2", "Sheet 1", "sheet 1", "Sheet 2", "SHEET 2", "sheet 2", "X", "x", "", "É", "é",
                 "Table 3", "Sheet 3", "nope"]
